@@ -53,7 +53,7 @@ def sanitize_trace(path):
 
 
 def run_job(job, wdir, idx):
-    bdir = build.ensure_build(job.cfg)
+    bdir = build.ensure_build(job.cfg, job.driver)
     base = os.path.join(wdir, "%03d-%s-%s" % (idx, job.cfg, job.label))
     script = base + ".script"
     with open(script, "w") as f:
@@ -77,8 +77,8 @@ def run_job(job, wdir, idx):
 def run_jobs(jobs, prop, par=None):
     wdir = _workdir(prop)
     # build every needed configuration first (serially: each build already uses all cores)
-    for cfg in sorted({j.cfg for j in jobs}):
-        build.ensure_build(cfg)
+    for cfg, drv in sorted({(j.cfg, j.driver) for j in jobs}):
+        build.ensure_build(cfg, drv)
     par = par or max(1, min(8, NCPU // 2))
     with ThreadPoolExecutor(max_workers=par) as ex:
         futs = [ex.submit(run_job, j, wdir, i) for i, j in enumerate(jobs)]
@@ -199,7 +199,7 @@ def exec_stats(jobs):
             for ln in f:
                 if ln.startswith('{"e":"x"'):
                     xn += 1
-                elif ln.startswith(('{"e":"talloc"', '{"e":"tend"', '{"e":"got"', '{"e":"scope_begin"', '{"e":"fn"', '{"e":"bnd"', '{"e":"bucket"', '{"e":"mbs"', '{"e":"stk"')):
+                elif ln.startswith(('{"e":"talloc"', '{"e":"tend"', '{"e":"got"', '{"e":"scope_begin"', '{"e":"cop"', '{"e":"poolrun"', '{"e":"fn"', '{"e":"bnd"', '{"e":"bucket"', '{"e":"mbs"', '{"e":"stk"')):
                     okx.add(xn)
                 elif '"r":"ok"' in ln and (ln.startswith('{"e":"alloc"') or ln.startswith('{"e":"op"') or ln.startswith('{"e":"ret"')):
                     okx.add(xn)
